@@ -60,10 +60,13 @@ impl<'a> Message<'a> {
             } else {
                 0
             };
-            let (rest, last_param) = if let Some((rest, lp)) = trimmed[start_pos..].split_once(':')
-            {
-                // get rest. add first character length to rest length.
-                (&trimmed[0..rest.len() + start_pos], Some(lp))
+            // the trailing parameter begins at the first ':' that starts a word (a ':' inside
+            // a middle parameter belongs to that parameter).
+            let tbytes = trimmed.as_bytes();
+            let colon_pos = (start_pos.max(1)..tbytes.len())
+                .find(|i| tbytes[*i] == b':' && tbytes[*i - 1].is_ascii_whitespace());
+            let (rest, last_param) = if let Some(pos) = colon_pos {
+                (&trimmed[0..pos], Some(&trimmed[pos + 1..]))
             } else {
                 (trimmed, None)
             };
